@@ -102,6 +102,12 @@ func (f *Frame) doCall(st *State, site ssa.CallInstruction, common *ssa.CallComm
 			}
 		}
 		f.panicSite(st, site.(ssa.Instruction), "nil", Eq(recv.Tag, IntLitI(0)), "method call on nil interface")
+		if why, ok := c.W.externFrames[name]; ok && c.W.externPure[name] {
+			c.W.noteAssumed("extern " + name + " is a pure accessor (its result is a function of the receiver and arguments): " + why)
+			if r := c.pureExtern(name, recv, args, resultType(common)); r != nil {
+				return r
+			}
+		}
 		if why, ok := c.W.externFrames[name]; ok {
 			c.W.noteAssumed("extern " + name + " leaves the verified heap unchanged, result unconstrained: " + why)
 			c.allocFrame(st)
@@ -116,6 +122,41 @@ func (f *Frame) doCall(st *State, site ssa.CallInstruction, common *ssa.CallComm
 		return f.callStatic(st, site, common, fnv.Fn, args, fnv.Binds)
 	}
 	return f.unknownCall(st, common, "function value")
+}
+
+// pureExtern: the result of a pure accessor as an uninterpreted function of receiver and scalar arguments.
+func (c *Ctx) pureExtern(name string, recv *Val, args []*Val, rt types.Type) *Val {
+	if rt == nil {
+		return nil
+	}
+	var in []Term
+	switch recv.K {
+	case KIface:
+		in = append(in, recv.Tag, recv.Pay)
+	case KScalar:
+		in = append(in, recv.T)
+	default:
+		return nil
+	}
+	for _, a := range args {
+		if a.K != KScalar {
+			return nil
+		}
+		in = append(in, a.T)
+	}
+	mk := func(suffix, sortName string) Term { return c.UF("pure."+name+suffix, sortName, in...) }
+	switch u := rt.Underlying().(type) {
+	case *types.Interface:
+		_ = u
+		return &Val{K: KIface, Ty: rt, Tag: mk(".tag", SInt), Pay: mk(".pay", SRef)}
+	case *types.Slice, *types.Struct, *types.Tuple, *types.Array:
+		return nil
+	}
+	sortName := c.scalarSort(rt)
+	if sortName == "" {
+		return nil
+	}
+	return scalar(mk("", sortName), rt)
 }
 
 // assumeFreshIn: the reference parts of an extern result denote objects allocated by that call.
